@@ -413,7 +413,7 @@ theorem best_cons (v : Option Nat) (ks : List (α × Node α)) (c : α) (cs : Li
   | some ch =>
     have : (fun k => lookupN (c :: k) (mk v ks)) = fun k => lookupN k ch := by
       funext k; simp [lookupN_cons, hf]
-    rw [this]; simp only [Option.bind_some, best]
+    rw [this]; simp only [Option.bind_some]
     cases longestBy (fun k => lookupN k ch) cs with
     | none => rfl
     | some r => obtain ⟨m, b⟩ := r; rfl
